@@ -116,6 +116,7 @@ pub(crate) const K_ALLOC: u8 = 10; // allocate_clusters(count)
 pub(crate) const K_FLUSH_CACHE: u8 = 11; // flush_cache(cache, start key, end key)
 pub(crate) const K_FSYNC: u8 = 12; // call_fsync
 pub(crate) const K_GROW_RT: u8 = 13; // grow_reftable
+pub(crate) const K_ISNEW: u8 = 15; // cluster_is_new(cluster number)
 pub(crate) const K_TRYALLOC: u8 = 14; // try_alloc_from_rb_slice (off,len = granted run; len 0 = None)
 
 const NOREC: Rec = Rec { kind: K_NONE, entry: 0, off: 0, len: 0, buf_start: 0, flags: 0 };
@@ -142,7 +143,27 @@ impl<T> KHandle<T> {
         self.dirty.get()
     }
 }
+/// stand-in for one key of an AsyncLruCache: empty, or holding an entry
+pub(crate) struct KSlot<T> {
+    pub cell: std::cell::OnceCell<KHandle<T>>,
+}
+impl<T> KSlot<T> {
+    pub fn empty() -> Self {
+        KSlot { cell: std::cell::OnceCell::new() }
+    }
+    pub fn put_into_wmap_with<F: FnOnce() -> KLock<T>>(&self, _key: usize, f: F) -> &KHandle<T> {
+        self.cell.get_or_init(|| KHandle { v: f(), dirty: Cell::new(false) })
+    }
+    /// nothing is evicted in the one-slot model
+    pub fn commit_wmap(&self) -> Option<()> {
+        None
+    }
+}
+
 impl<T> KLock<T> {
+    pub fn new(t: T) -> Self {
+        KLock(RefCell::new(t))
+    }
     pub fn kwrite(&self) -> RefMut<'_, T> {
         self.0.borrow_mut()
     }
@@ -213,6 +234,7 @@ pub(crate) struct KEnv {
     pub alloc_cnt: usize,
     pub cache_dirty: Cell<bool>,
     pub fail_write: Cell<bool>,
+    pub cluster_new: Cell<bool>,
 }
 
 impl KEnv {
@@ -235,6 +257,7 @@ impl KEnv {
             alloc_cnt: 0,
             cache_dirty: Cell::new(false),
             fail_write: Cell::new(false),
+            cluster_new: Cell::new(false),
         }
     }
 
@@ -326,12 +349,12 @@ impl KEnv {
         let calls = self.count(K_TRYALLOC);
         kani::assume(calls < 4); // harness bound: at most 4 allocator steps per request
         if idx + count > entries {
-            self.rec(Rec { kind: K_TRYALLOC, off: 0, len: 0, ..NOREC });
+            self.rec(Rec { kind: K_TRYALLOC, off: 0, len: 0, buf_start: cls.0 as usize, ..NOREC });
             return Ok(None);
         }
         let some: bool = kani::any();
         if !some {
-            self.rec(Rec { kind: K_TRYALLOC, off: 0, len: 0, ..NOREC });
+            self.rec(Rec { kind: K_TRYALLOC, off: 0, len: 0, buf_start: cls.0 as usize, ..NOREC });
             return Ok(None);
         }
         let skip: usize = kani::any();
@@ -341,8 +364,12 @@ impl KEnv {
             kani::assume(n == count);
         }
         let off = cls.rb_slice_host_start(info) + (((idx + skip) as u64) << info.cluster_bits());
-        self.rec(Rec { kind: K_TRYALLOC, off, len: n, ..NOREC });
+        self.rec(Rec { kind: K_TRYALLOC, off, len: n, buf_start: cls.0 as usize, ..NOREC });
         Ok(Some((off, n)))
+    }
+    pub fn k_cluster_is_new(&self, cluster: u64) -> bool {
+        self.rec(Rec { kind: K_ISNEW, off: cluster, ..NOREC });
+        self.cluster_new.get()
     }
     pub fn k_get_l1_entry(&self, _split: &crate::meta::SplitGuestOffset) -> KResult<L1Entry> {
         Ok(self.l1_entry)
